@@ -12,3 +12,4 @@ def run(ck):
     matrix.r5_rounding_siblings(ck, P)
     matrix.r6_float_to_fixed_guarded(ck, P)
     matrix.r7_whole_w_tested(ck, P)
+    matrix.r8_forward_reverse_order(ck, P)
